@@ -473,7 +473,15 @@ def _live_ids(vmf):
     ents = list(vmf.entities)
     brushes = list(vmf.brushes) + [s for e in ents for s in e.solids]
     faces = [f for b in brushes for f in b.sides]
-    return {'entity': [e.id for e in ents], 'brush': [b.id for b in brushes], 'face': [f.id for f in faces]}
+    vis = []
+
+    def walk(groups):
+        for g in groups:
+            vis.append(g.id)
+            walk(g.child_groups)
+    walk(vmf.vis_tree)
+    return {'entity': [e.id for e in ents], 'brush': [b.id for b in brushes], 'face': [f.id for f in faces],
+            'visgroup': vis, 'group': [g.id for g in vmf.groups.values()]}
 
 
 def _check_ids(vmf):
@@ -503,7 +511,8 @@ def _check_ids(vmf):
 
 
 OPS = ['create-1', 'create0', 'create1', 'create2', 'copy0', 'copy_last', 'remove0', 'remove_last', 'readd',
-       'del_gc', 'brush', 'copy_brush', 'node', 'node_set', 'node_del', 'fix_set', 'fix_del', 'fix_copy']
+       'del_gc', 'brush', 'copy_brush', 'node', 'node_set', 'node_del', 'fix_set', 'fix_del', 'fix_copy',
+       'vis', 'vis_tree_from_other_map', 'vis_copy_here', 'group']
 
 
 def _run_history(ops):
@@ -549,6 +558,22 @@ def _run_history(ops):
             del ents[-1].fixup[next(iter(ents[-1].fixup))]
         elif op == 'fix_copy' and ents:
             vmf.add_ent(ents[-1].copy())
+        elif op == 'vis':
+            from srctools.vmf import VisGroup
+            vmf.vis_tree.append(VisGroup(vmf, f'g{len(vmf.vis_tree)}'))
+        elif op == 'vis_tree_from_other_map':
+            # a nested tree built in another map (whose id pool starts over), copied into this one
+            from srctools.vmf import VisGroup
+            other = VMF()
+            tree = VisGroup(other, 'parent', child_groups=[VisGroup(other, 'child', child_groups=[VisGroup(other, 'grand')])])
+            other.vis_tree.append(tree)
+            vmf.vis_tree.append(tree.copy(vmf))
+        elif op == 'vis_copy_here' and vmf.vis_tree:
+            vmf.vis_tree.append(vmf.vis_tree[0].copy())
+        elif op == 'group':
+            from srctools.vmf import EntityGroup
+            grp = EntityGroup(vmf)
+            vmf.groups[grp.id] = grp
         steps.append(op)
         bad = _check_ids(vmf)
         if bad:
@@ -561,20 +586,21 @@ def _run_history(ops):
          rule='a case is one operation sequence; non-trivial when it creates at least two id holders')
 def b_histories(ctx):
     n = 4 if ctx.thorough else 3
-    for length in range(1, n + 1):
-        for ops in itertools.product(OPS, repeat=length):
-            if ctx.out_of_time():
-                return
-            ctx.case(ops, nontrivial=sum(o.startswith(('create', 'copy', 'brush', 'node', 'fix')) for o in ops) >= 2)
-            r = _run_history(ops)
-            if r:
-                _report(ctx, r)
-    for _ in range(300 if not ctx.thorough else 3000):
-        ops = tuple(ctx.rng.choice(OPS) for _ in range(ctx.rng.randint(5, 9)))
-        ctx.case(ops)
-        r = _run_history(ops)
-        if r:
-            _report(ctx, r)
+    jobs = [ops for length in range(1, n + 1) for ops in itertools.product(OPS, repeat=length)]
+    jobs += [tuple(ctx.rng.choice(OPS) for _ in range(ctx.rng.randint(4, 9))) for _ in range(600 if not ctx.thorough else 6000)]
+    # the known node-id histories are part of every run, so a listed finding is re-confirmed (and printed) each time
+    jobs += [('node', 'remove0', 'node', 'readd'), ('node', 'remove_last', 'node', 'readd')]
+    seen = set()
+    for ops, r in ctx.pmap(_run_history, jobs, batch=2048, job_timeout=20.0):
+        ctx.case(ops, nontrivial=sum(o.startswith(('create', 'copy', 'brush', 'node', 'fix', 'vis', 'group')) for o in ops) >= 2)
+        if isinstance(r, str):
+            ctx.violation('history=' + '>'.join(ops), r, list(ops))
+        elif r:
+            core = tuple(minimise(r[0], _run_history))
+            if core in seen:
+                continue
+            seen.add(core)
+            _report(ctx, (list(core), r[1]))
 
 
 def _report(ctx, r):
